@@ -78,6 +78,7 @@ type genCase struct {
 type genStep struct {
 	Put    []genFile `json:"put"`
 	Remove []string  `json:"remove"`
+	UserKey bool     `json:"userKey"` // the puts of this step exchange key material by hand: the directory is recorded once more before the run
 	Flags  []string  `json:"flags"`
 }
 
@@ -328,6 +329,9 @@ func genOne(cs *genCase) *genOut {
 			fl := st.Flags
 			if fl == nil {
 				fl = []string{"m", "c"}
+			}
+			if st.UserKey {
+				snapshot(si+1, runResult{Result: "user"})
 			}
 			fsys.ResetLog()
 			r = signRun(fsys, flagsToStrat(fl), func(a string) string { return a })
